@@ -8,6 +8,14 @@ computed from the generator's own tree and printed text (never from the parser u
   for every invocation: its parameters in source order;  for every select-related: its navigation steps in source order
 
 Types are written 'integer', 'real', 'string', 'boolean', 'unique_id', 'Colour', 'void', 'inst_ref<K>', 'inst_ref_set<K>'.
+
+Scoping.  A variable is declared by the first statement that assigns / creates / selects / iterates it while no variable of that
+name is visible, in the block (statement list) of that statement; it is visible until that block ends.  Every declaration is a
+`cell` dict(name, ty, stmt = the declaring statement); every expression node that reads or writes a variable carries the cell
+the name resolves to where it is written.  With `reuse` > 0 the name of a new variable is, with that probability, a name that an
+already finished block declared (possibly with another type), so one name denotes several variables in nested and sibling
+blocks.  `generate(..., skeleton=...)` builds a program with a prescribed block structure and prescribed declarations/uses of
+named variables (see Gen.sk_block) around which everything else is generated as usual.
 """
 from . import _c06_model as M
 
@@ -39,12 +47,16 @@ def is_set(t):
 
 
 class Gen(object):
-    def __init__(self, rng, home, forced=None):
+    def __init__(self, rng, home, forced=None, reuse=0.0):
         self.rng = rng
         self.home = home
         kind, ret, params, has_self = M.HOMES[home]
         self.ret, self.params, self.has_self = ret, list(params), has_self
-        self.scopes = [{}]          # innermost last: name -> type
+        self.scopes = [{}]          # innermost last: name -> cell dict(name, ty, stmt)
+        self.cells = []             # every declaration, in order of appearance
+        self.retired = []           # names declared by blocks that have ended
+        self.reuse = reuse          # probability of naming a new variable like a variable of a finished block
+        self.reserved = set()       # names prescribed by a skeleton: never picked for another variable
         self.loops = 0
         self.n = 0
         self.forced = list(forced or [])    # statement kinds to produce first (systematic part)
@@ -53,24 +65,48 @@ class Gen(object):
 
     # ---------------------------------------------------------------- names ----------------------------------------------------
     def fresh(self, prefix='v'):
+        if self.reuse:
+            dead = [n for n in self.retired if self.cell(n) is None and n not in self.reserved]
+            if dead and self.rng.random() < self.reuse:
+                return self.rng.choice(dead)
         self.n += 1
         return '%s%d' % (prefix, self.n)
 
-    def lookup(self, name):
+    def cell(self, name):
         for s in reversed(self.scopes):
             if name in s:
                 return s[name]
         return None
 
+    def lookup(self, name):
+        c = self.cell(name)
+        return None if c is None else c['ty']
+
     def visible(self, pred):
         out = {}
         for s in self.scopes:
             for k, v in s.items():
-                out[k] = v
+                out[k] = v['ty']
         return sorted(k for k, v in out.items() if pred(v))
 
     def declare(self, name, ty):
-        self.scopes[-1][name] = ty
+        assert self.cell(name) is None, name
+        c = dict(name=name, ty=ty, stmt=None)
+        self.scopes[-1][name] = c
+        self.cells.append(c)
+
+    def var(self, name):
+        """Expression node for the variable the name resolves to here."""
+        c = self.cell(name)
+        return dict(k='var', t=c['ty'], s=name, name=name, cell=c)
+
+    def push(self):
+        self.scopes.append({})
+
+    def pop(self):
+        for n in self.scopes.pop():
+            if n not in self.retired:
+                self.retired.append(n)
 
     # ---------------------------------------------------------------- expressions ----------------------------------------------
     def lit(self, ty):
@@ -91,7 +127,7 @@ class Gen(object):
         for v in self.visible(is_inst):
             t = self.lookup(v)
             if kl is None or klass(t) == kl:
-                out.append(dict(k='var', t=t, s=v, name=v))
+                out.append(self.var(v))
         if self.has_self and (kl in (None, 'A')):
             out.append(dict(k='self', t=inst('A'), s='self'))
         if kl in (None, 'A') and any(p == 'pa' for p, _ in self.params):
@@ -123,7 +159,7 @@ class Gen(object):
         if not vs:
             return None
         v = self.rng.choice(vs)
-        return dict(k='var', t=ty, s=v, name=v)
+        return self.var(v)
 
     def call(self, ty, depth, statement=False):
         """An invocation whose return type is ty."""
@@ -219,7 +255,7 @@ class Gen(object):
         if not vs:
             return None
         v = self.rng.choice(vs)
-        return dict(k='un', t='integer', op='cardinality', e=dict(k='var', t=self.lookup(v), s=v, name=v), s='cardinality %s' % v)
+        return dict(k='un', t='integer', op='cardinality', e=self.var(v), s='cardinality %s' % v)
 
     def emptiness(self):
         vs = self.visible(lambda t: is_set(t) or is_inst(t))
@@ -227,7 +263,7 @@ class Gen(object):
             return None
         v = self.rng.choice(vs)
         op = self.rng.choice(['empty', 'not_empty', 'NOT_EMPTY'])
-        return dict(k='un', t='boolean', op=op, e=dict(k='var', t=self.lookup(v), s=v, name=v), s='%s %s' % (op, v))
+        return dict(k='un', t='boolean', op=op, e=self.var(v), s='%s %s' % (op, v))
 
     def comparison(self, depth):
         r = self.rng
@@ -256,11 +292,11 @@ class Gen(object):
 
     # ---------------------------------------------------------------- statements -----------------------------------------------
     def block(self, size, depth):
-        self.scopes.append({})
+        self.push()
         try:
             return self.statements(size, depth)
         finally:
-            self.scopes.pop()
+            self.pop()
 
     def statements(self, size, depth):
         out = []
@@ -281,6 +317,18 @@ class Gen(object):
         return k
 
     def statement(self, size, depth):
+        mark = len(self.cells)
+        s = self._statement(size, depth)
+        self.owns(s, mark)
+        return s
+
+    def owns(self, s, mark):
+        """The declarations made since `mark` that no nested statement made are made by statement s."""
+        for c in self.cells[mark:]:
+            if c['stmt'] is None:
+                c['stmt'] = s
+
+    def _statement(self, size, depth):
         for _ in range(60):
             self.forcing = bool(self.forced)
             kind = self.forced.pop(0) if self.forced else self.rng.choice(self.kinds(size, depth))
@@ -322,10 +370,9 @@ class Gen(object):
             name = self.fresh()
             decl = [(name, e['t'])]
         kw = 'assign ' if r.random() < 0.2 else ''
-        s = dict(act='ACT_AI', head='%s%s = %s' % (kw, name, e['s']), rval=e, lval=dict(k='var', t=e['t'] if decl else ty, s=name, name=name), decl=decl)
         for n, t in decl:
             self.declare(n, t)
-        return s
+        return dict(act='ACT_AI', head='%s%s = %s' % (kw, name, e['s']), rval=e, lval=self.var(name), decl=decl)
 
     def s_assign_attr(self, size, depth):
         cands = []
@@ -346,7 +393,7 @@ class Gen(object):
 
     def s_assign_inst(self, size, depth):
         vs = self.visible(lambda t: is_inst(t) or is_set(t))
-        roots = [dict(k='var', t=self.lookup(v), s=v, name=v) for v in vs]
+        roots = [self.var(v) for v in vs]
         if self.has_self:
             roots.append(dict(k='self', t=inst('A'), s='self'))
         if not roots:
@@ -354,7 +401,7 @@ class Gen(object):
         e = self.rng.choice(roots)
         name = self.fresh('h')
         self.declare(name, e['t'])
-        return dict(act='ACT_AI', head='%s = %s' % (name, e['s']), rval=e, lval=dict(k='var', t=e['t'], s=name, name=name), decl=[(name, e['t'])])
+        return dict(act='ACT_AI', head='%s = %s' % (name, e['s']), rval=e, lval=self.var(name), decl=[(name, e['t'])])
 
     def target_var(self, ty, prefix):
         """A variable to receive an instance (set): an existing one of that type or a fresh implicit declaration."""
@@ -364,9 +411,12 @@ class Gen(object):
         name = self.fresh(prefix)
         return name, [(name, ty)]
 
-    def s_create(self, size, depth, kl=None, fresh=False):
+    def s_create(self, size, depth, kl=None, fresh=False, name=None):
         kl = kl or self.rng.choice(['A', 'A', 'B', 'L'])
-        name, decl = self.target_var(inst(kl), 'i') if not fresh else (self.fresh('i'), None)
+        if name is not None:
+            name, decl = self.named_target(name, inst(kl))
+        else:
+            name, decl = self.target_var(inst(kl), 'i') if not fresh else (self.fresh('i'), None)
         if decl is None:
             decl = [(name, inst(kl))]
         for n, t in decl:
@@ -384,11 +434,20 @@ class Gen(object):
             return None
         return dict(act='ACT_DEL', head='delete object instance %s' % self.rng.choice(vs))
 
-    def s_select_from(self, size, depth, many=None, where=False):
-        kl = self.rng.choice(['A', 'A', 'B', 'L'])
+    def named_target(self, name, ty):
+        """The prescribed variable: must be of type ty when visible, else it is declared here."""
+        c = self.cell(name)
+        assert c is None or c['ty'] == ty, (name, ty)
+        return name, ([] if c is not None else [(name, ty)])
+
+    def s_select_from(self, size, depth, many=None, where=False, kl=None, name=None):
+        kl = kl or self.rng.choice(['A', 'A', 'B', 'L'])
         many = self.rng.random() < 0.5 if many is None else many
         w = self.where(kl) if where else None
-        name, decl = self.target_var(iset(kl) if many else inst(kl), 's' if many else 'i')
+        if name is None:
+            name, decl = self.target_var(iset(kl) if many else inst(kl), 's' if many else 'i')
+        else:
+            name, decl = self.named_target(name, iset(kl) if many else inst(kl))
         for n, t in decl:
             self.declare(n, t)
         kw = self.rng.choice(['instances of ', 'instances of ', ''])
@@ -403,9 +462,9 @@ class Gen(object):
     def s_select_from_where(self, size, depth):
         return self.s_select_from(size, depth, where=True)
 
-    def s_select_related(self, size, depth, where=False):
+    def s_select_related(self, size, depth, where=False, name=None):
         roots = [r for r in self.instance_roots() if r['k'] in ('var', 'self')]
-        sets = [dict(k='var', t=self.lookup(v), s=v, name=v) for v in self.visible(is_set)]
+        sets = [self.var(v) for v in self.visible(is_set)]
         roots = roots + sets
         if not roots:
             return None
@@ -421,7 +480,10 @@ class Gen(object):
             many = many or st[4]
         card = self.rng.choice(['any', 'many']) if many else self.rng.choice(['one', 'one', 'any'])
         w = self.where(kl) if where else None
-        name, decl = self.target_var(iset(kl) if card == 'many' else inst(kl), 's' if card == 'many' else 'i')
+        if name is None:
+            name, decl = self.target_var(iset(kl) if card == 'many' else inst(kl), 's' if card == 'many' else 'i')
+        else:
+            name, decl = self.named_target(name, iset(kl) if card == 'many' else inst(kl))
         for n, t in decl:
             self.declare(n, t)
         chain = ''.join('->%s[%s%s]' % (st[2], st[1], ('.' + st[3]) if st[3] else '') for st in steps)
@@ -482,7 +544,7 @@ class Gen(object):
             return None
         name = self.fresh()
         self.declare(name, ty)
-        return dict(act='ACT_AI', head='%s = %s' % (name, c['s']), rval=c, lval=dict(k='var', t=ty, s=name, name=name), decl=[(name, ty)])
+        return dict(act='ACT_AI', head='%s = %s' % (name, c['s']), rval=c, lval=self.var(name), decl=[(name, ty)])
 
     def s_call(self, size, depth, only=None):
         c = None
@@ -562,6 +624,177 @@ class Gen(object):
                     loop=self.rng.random() < 0.15)
 
 
+    # ---------------------------------------------------------------- prescribed structure --------------------------------------
+    def sk_block(self, sk, depth):
+        """The statements of one block from a skeleton, a list of
+             ['d', name, how]     assign / create / select the variable `name`: when no variable of that name is visible this declares
+                                  it the way `how` says, otherwise the visible variable receives a value of its own type
+             ['u', name]          a statement that reads the variable `name` (nothing when no such variable is visible)
+             ['if', block, [block, ...], block | None]     if / elif ... / else
+             ['while', block]   ['for', block, name | None]   loops (for each: `name` is the loop variable)
+             ['x']                any simple statement
+           how: a scalar type | 'create:K' | 'any:K' | 'many:K' | 'where:K' | 'related' | 'handle' | 'call'.
+           Statements that are needed first (an instance to navigate from, a set to iterate) are put in front (size 0)."""
+        out = []
+        for el in sk:
+            pre = []
+            mark = len(self.cells)
+            s = getattr(self, 'sk_' + el[0])(el, depth, pre)
+            out.extend(pre)
+            if s is None:
+                continue
+            s.setdefault('size', 1)
+            s.setdefault('decl', [])
+            s.setdefault('kind', 'skeleton:' + el[0])
+            self.owns(s, mark)
+            out.append(s)
+        if not out:
+            out.append(self.statement(1, 3))
+        return out
+
+    def need(self, pre, what):
+        """A statement in front that puts an instance of class `what` ('set': any instance set) in scope; -> its variable."""
+        mark = len(self.cells)
+        p = self.s_select_from(1, 0, many=True) if what == 'set' else self.s_create(1, 0, kl=what, fresh=True)
+        p.update(kind='prerequisite', size=0)
+        p.setdefault('decl', [])
+        self.owns(p, mark)
+        pre.append(p)
+        return p['var']
+
+    def typed_expr(self, ty, pre):
+        for _ in range(8):
+            try:
+                e = self.expr(ty)
+            except LookupError:
+                self.need(pre, 'A')
+                continue
+            if e['t'] == ty:
+                return e
+        if ty in SCALARS:
+            return self.lit(ty)
+        if ty == 'Colour':
+            return dict(k='enum', t=ty, s='Colour::Green')
+        return self.attr_read(ty)
+
+    def sk_d(self, el, depth, pre):
+        name, how = el[1], el[2]
+        c = self.cell(name)
+        if c is not None:
+            t = c['ty']
+            how = ('many:' + klass(t)) if is_set(t) else (self.rng.choice(['any:', 'create:', 'where:']) + klass(t)) if is_inst(t) else t
+        if how in SCALARS or how in ('Colour', 'unique_id'):
+            e = self.typed_expr(how, pre)
+            decl = [] if c is not None else [(name, how)]
+        elif how == 'call':
+            ty = self.rng.choice(SCALARS)
+            e = self.call(ty, 0)
+            decl = [(name, ty)]
+        elif how == 'handle':
+            roots = [self.var(v) for v in self.visible(lambda t: is_inst(t) or is_set(t))]
+            if self.has_self:
+                roots.append(dict(k='self', t=inst('A'), s='self'))
+            e = self.rng.choice(roots) if roots else self.var(self.need(pre, self.rng.choice(['A', 'B', 'set'])))
+            decl = [(name, e['t'])]
+        elif how == 'related':
+            s = self.s_select_related(1, depth, where=self.rng.random() < 0.3, name=name)
+            if s is None:
+                self.need(pre, 'A')
+                s = self.s_select_related(1, depth, name=name)
+            return s
+        else:
+            form, kl = how.split(':')
+            if form == 'create':
+                return self.s_create(1, depth, kl=kl, name=name)
+            return self.s_select_from(1, depth, many=form == 'many', where=form == 'where', kl=kl, name=name)
+        for n, t in decl:
+            self.declare(n, t)
+        kw = 'assign ' if self.rng.random() < 0.2 else ''
+        return dict(act='ACT_AI', head='%s%s = %s' % (kw, name, e['s']), rval=e, lval=self.var(name), decl=decl)
+
+    def sk_u(self, el, depth, pre):
+        r = self.rng
+        c = self.cell(el[1])
+        if c is None or c['ty'] is None:
+            return None
+        t, x = c['ty'], self.var(el[1])
+        if is_set(t) or is_inst(t):
+            forms = ['handle', 'cardinality', 'empty'] + (['attr', 'attr'] if is_inst(t) else [])
+        else:
+            forms = ['copy', 'copy', 'equal'] + {'integer': ['arith'], 'real': ['arith'], 'string': ['arith'], 'boolean': ['not']}.get(t, [])
+        f = r.choice(forms)
+        if f in ('handle', 'copy'):
+            e = x
+        elif f == 'cardinality':
+            e = dict(k='un', t='integer', op='cardinality', e=x, s='cardinality %s' % x['s'])
+        elif f == 'empty':
+            op = r.choice(['empty', 'not_empty'])
+            e = dict(k='un', t='boolean', op=op, e=x, s='%s %s' % (op, x['s']))
+        elif f == 'attr':
+            an, at = r.choice(M.ATTRS[klass(t)])
+            e = dict(k='attr', t=at, s='%s.%s' % (x['s'], an), root=x, name=an)
+        elif f == 'equal':
+            e = self.binary('boolean', r.choice(['==', '!=']), x, self.var(el[1]))
+        elif f == 'arith':
+            e = self.binary(t, '+', x, self.lit(t))
+        else:
+            e = self.unary('boolean', 'not', x)
+        name = self.fresh('h' if f == 'handle' else 'v')
+        self.declare(name, e['t'])
+        return dict(act='ACT_AI', head='%s = %s' % (name, e['s']), rval=e, lval=self.var(name), decl=[(name, e['t'])])
+
+    def sk_x(self, el, depth, pre):
+        return self.statement(1, 3)
+
+    def sk_scope(self, sk, depth):
+        self.push()
+        try:
+            return self.sk_block(sk, depth + 1)
+        finally:
+            self.pop()
+
+    def sk_if(self, el, depth, pre):
+        cond = self.expr('boolean')
+        blk = self.sk_scope(el[1], depth)
+        elifs = []
+        for b in el[2]:
+            c = self.expr('boolean')
+            elifs.append(dict(cond=c, block=self.sk_scope(b, depth)))
+        els = self.sk_scope(el[3], depth) if el[3] is not None else None
+        total = 1 + sum(s['size'] for b in [blk] + [e['block'] for e in elifs] + ([els] if els else []) for s in b)
+        return dict(act='ACT_IF', cond=cond, block=blk, elifs=elifs, els=els, size=total, then=self.rng.random() < 0.15)
+
+    def sk_while(self, el, depth, pre):
+        cond = self.expr('boolean')
+        self.loops += 1
+        try:
+            blk = self.sk_scope(el[1], depth)
+        finally:
+            self.loops -= 1
+        return dict(act='ACT_WHL', cond=cond, block=blk, size=1 + sum(s['size'] for s in blk), loop=self.rng.random() < 0.15)
+
+    def sk_for(self, el, depth, pre):
+        name = el[2] if len(el) > 2 else None
+        sets = self.visible(is_set)
+        sv = self.rng.choice(sets) if sets else self.need(pre, 'set')
+        kl = klass(self.lookup(sv))
+        if name is not None and self.cell(name) is not None and self.lookup(name) != inst(kl):
+            name = None
+        if name is None:
+            name, decl = self.target_var(inst(kl), 'e')
+        else:
+            name, decl = self.named_target(name, inst(kl))
+        for n, t in decl:
+            self.declare(n, t)          # next to the for statement, as in s_for
+        self.loops += 1
+        try:
+            blk = self.sk_scope(el[1], depth)
+        finally:
+            self.loops -= 1
+        return dict(act='ACT_FOR', var=name, set=sv, block=blk, decl=decl, loopvar=bool(decl), size=1 + sum(s['size'] for s in blk),
+                    loop=self.rng.random() < 0.15)
+
+
 # ------------------------------------------------------------------ printing ------------------------------------------------------
 class Printer(object):
     """One statement per line (block statements span lines); records line/columns (1-based) and list membership."""
@@ -626,10 +859,23 @@ class Printer(object):
         s['end'] = c + len(tail) - 1
 
 
-def generate(rng, home, size, forced=None):
-    """-> (text, top level statements, statement lists).  Deterministic in (rng state, home, size, forced)."""
-    g = Gen(rng, home, forced)
-    stmts = g.statements(size, 0)
+def generate(rng, home, size, forced=None, reuse=0.0, skeleton=None):
+    """-> (text, top level statements, statement lists).  Deterministic in (rng state, home, size, forced, reuse, skeleton)."""
+    g = Gen(rng, home, forced, reuse)
+    if skeleton is not None:
+        def names(sk):
+            for el in sk:
+                if el[0] in ('d', 'u'):
+                    g.reserved.add(el[1])
+                elif el[0] == 'if':
+                    for b in [el[1]] + list(el[2]) + ([el[3]] if el[3] is not None else []):
+                        names(b)
+                elif el[0] in ('while', 'for'):
+                    names(el[1])
+                    if el[0] == 'for' and len(el) > 2 and el[2]:
+                        g.reserved.add(el[2])
+        names(skeleton)
+    stmts = g.sk_block(skeleton, 0) if skeleton is not None else g.statements(size, 0)
     if home == 'derived_attribute' and rng.random() < 0.7:
         e = g.expr('integer')
         stmts.append(dict(act='ACT_AI', kind='assign_attr', head='self.D = %s' % e['s'], rval=e, size=1, decl=[],
